@@ -535,3 +535,32 @@ def memset_args(ctx, P, rule="MEMSET-ARGS", tus=("core", "tables", "trees", "gen
                            % (_norm(tu.src(c))[:70], val, cnt))
                 k += 1
     ctx.ob(rule, "instances", n >= 100, "c/tskit", "%d memset calls, each with a non-zero count expression and a fill value that is not a size" % n)
+
+
+# ------------------------------------------------------------------------------------------------------------------------
+# APPEND-ATOMIC
+
+def append_atomic(ctx, P, rule="APPEND-ATOMIC"):
+    """tsk_<T>_table_append_columns with several ragged columns: a bad offset array in a LATER column must be found before an
+    EARLIER column's payload has been appended and its length advanced, or the failed call leaves ghost data that the next
+    add_row inherits (num_rows unchanged, <col>_length advanced)."""
+    ctx.rule(rule, "in every tsk_<T>_table_append_columns / set_columns-style appender every check_offsets call precedes the first "
+                   "statement that advances a ragged column's length (`self-><col>_length += …`): a failed append leaves the table "
+                   "as it was (a later column's bad offsets are found before an earlier column is extended)")
+    tu = P.tus["tables"]
+    n = 0
+    for fn in tu.funcs.values():
+        if fn.body is None or not re.fullmatch(r"tsk_\w+_table_append_columns", fn.name):
+            continue
+        src = tu.src(fn.body)
+        checks = [m.start() for m in re.finditer(r"\bcheck_offsets\s*\(", src)]
+        adv = [m.start() for m in re.finditer(r"self->\w+_length\s*\+=", src)]
+        if len(checks) < 2:
+            continue                    # one ragged column: nothing can be half appended by an offsets failure
+        n += 1
+        late = [c for c in checks if adv and c > adv[0]]
+        ctx.ob(rule, fn.name, not late, tu.loc(fn.node),
+               "all %d offset validations precede the first length advance" % len(checks) if not late else
+               "%d of %d check_offsets calls come after `%s`: a bad offset array in a later column is found after an earlier column has been extended"
+               % (len(late), len(checks), _norm(src[adv[0]:adv[0] + 40]).split(";")[0]))
+    ctx.ob(rule, "instances", n >= 4, "c/tskit/tables.c", "%d appenders with two or more ragged columns" % n)
